@@ -61,6 +61,23 @@ def gen_cases(chk):
                 cfg = "szMode=%s;psnr=%s;normErr=%s" % (szm, rng.choice(("60", "90", "35.5")), rng.choice(("0.05", "1.5")))
                 data = "g:%d:%x:%x:%s:%s" % (kind, rng.getrandbits(20), n, dbits(scale), dbits(off))
                 cases.append("meta %x %s %x %s %s %s %s" % (ty, dims, mode, dbits(absb), dbits(rel), cfg, data))
+    # modes in which SZ derives the bound itself (REL, PSNR; NORM for float/double), every type and rank, with an absolute-bound *argument* far
+    # above the derived bound: the argument must be ignored by the kernels as it is by the header
+    for t in ((64,), (30, 40), (8, 9, 10), (3, 4, 5, 6)):
+        n = 1
+        for v in t:
+            n *= v
+        dims = ",".join("%x" % v for v in [0] * (5 - len(t)) + list(t))
+        for ty in range(10):
+            for mode in ((1, 4, 5) if ty < 2 else (1, 4)):
+                if ty < 2:
+                    scale, off = 100.0, 0.0
+                else:
+                    a_ = 3.0 if ty in (2, 3) else 200.0
+                    scale, off = a_, (a_ * 20 if ty in (2, 4, 6, 8) else 0.0)
+                cfg = "szMode=SZ_BEST_SPEED;psnr=%s;normErr=0.05" % rng.choice(("60", "35.5"))
+                data = "g:%d:%x:%x:%s:%s" % (rng.choice((0, 2, 3)), rng.getrandbits(20), n, dbits(scale), dbits(off))
+                cases.append("meta %x %s %x %s %s %s %s" % (ty, dims, mode, dbits(50.0 * scale), dbits(1e-2), cfg, data))
     # streams produced after a compression of another element type, and through the thread-safe customize entry (no dispatcher)
     for t in ((1000,), (30, 40), (8, 9, 10)):
         n = 1
